@@ -308,7 +308,7 @@ def run(chk):
         chk.oracle('corpus:' + name, [case], ORACLES[name])
 
     rules_all = list(PROTEASES.keys()) + EXTRA_RULES
-    N = 330 if tier == 'quick' else 2000
+    N = 330 if tier == 'quick' else 1400
     dig, gens, pcs = [], [], []
     for idx in range(N):
         a, pat = gen_protein(rng, 40 if idx % 4 else 12, full_pool=(idx % 5 == 0))
